@@ -3,7 +3,11 @@
 Tie: `match_resource` / `match_actions` directly, and a one-rule policy through `Guard`
 (single policy → compiled path, policy set → set path) and `compiler.compile`, against the
 model's matcher. The spec verdict for every path is the model's documented table
-(`Rbacx.matchResource`, characterised declaratively by theorems Rbacx.C05.*)."""
+(`Rbacx.matchResource`, characterised declaratively by theorems Rbacx.C05.*).
+
+Tie by regeneration: `_is_strict` and `match_resource` are translated from the current source text
+(harness/extractors/src_translation_target.py), proved equal to `Rbacx.matchResource` by the per-run obligation
+`Run/C05_translated.lean`, and the translation is evaluated against the real functions (`translated_vs_python`)."""
 from __future__ import annotations
 
 import itertools
@@ -133,6 +137,112 @@ def run_cases(run: lib.Run, audit: dict, scale: int = 1):
             run.spec_failures.append({"actions": a, "action": x, "documented": model, "impl": got})
 
 
+# ---------------------------------------------------------------------- the translated matcher vs the real one
+
+ABSENT = "<absent>"
+G_TYPES = [ABSENT, "doc", "*", ["doc", "file"], ["*"], 1, ["doc", 7], [], ""]
+G_IDS = [ABSENT, "1", 1, None, 1.0, True]
+G_ATTRS = [ABSENT, {}, {"level": 1}, {"level": [1, 2]}, {"level": "1"}, {"a": None}, "x", []]
+G_RES_TYPES = ["doc", "file", 1, None, "1", True]
+G_RES_IDS = ["1", 1, None, 2, 1.0]
+G_RES_ATTRS = [{}, {"level": 1}, {"level": "1"}, {"level": 2}, {"level": 1.0}, None, "x"]
+G_STRICT = [None, False, True]
+G_LEGACY = [ABSENT, True, False, 0, "yes"]
+
+
+def _rdef(t, i, a, key="attrs"):
+    d = {}
+    if t != ABSENT:
+        d["type"] = t
+    if i != ABSENT:
+        d["id"] = i
+    if a != ABSENT:
+        d[key] = a
+    return d
+
+
+def _res(t, i, a, legacy=ABSENT, key="attrs"):
+    d = {"type": t, "id": i, key: a}
+    if legacy != ABSENT:
+        d["__strict_types__"] = legacy
+    return d
+
+
+def target_grid(run: lib.Run, n_random: int):
+    """(rdef, resource, strict): each block of the matcher exhaustively against its own inputs × every strictness, then a seeded
+    sample of the full product (the blocks are independent in the source, but that is not assumed)"""
+    modes = [(s, lg) for s in G_STRICT for lg in (ABSENT, True, False)]
+    for t, rt, (s, lg) in itertools.product(G_TYPES, G_RES_TYPES, modes):
+        yield _rdef(t, ABSENT, ABSENT), _res(rt, "1", {}, lg), s
+    for i, ri, (s, lg) in itertools.product(G_IDS, G_RES_IDS, modes):
+        yield _rdef("doc", i, ABSENT), _res("doc", ri, {}, lg), s
+    for a, ra, key, rkey, (s, lg) in itertools.product(G_ATTRS, G_RES_ATTRS, ("attrs", "attributes"), ("attrs", "attributes"), modes):
+        yield _rdef(ABSENT, ABSENT, a, key), _res("doc", "1", ra, lg, rkey), s
+    # both attribute keys at once (the canonical one wins unless falsy), a target that is not a mapping, the empty target
+    for s, lg in modes:
+        yield {"attrs": {}, "attributes": {"level": 1}}, _res("doc", "1", {"level": 2}, lg), s
+        yield {"attrs": {"level": 1}, "attributes": {"level": 2}}, {"type": "doc", "attrs": None, "attributes": {"level": 1}}, s
+        for rd in (None, "x", [], 5, {}, {"other": 1}):
+            yield rd, _res("doc", "1", {}, lg), s
+        yield {"type": "doc"}, {}, s
+        # a resource that is not a mapping: CPython raises AttributeError at `resource.get` (counted, not judged — outside the domain)
+        for bad in (None, "x", ["__strict_types__"]):
+            yield {"type": "doc"}, bad, s
+    r = random.Random(run.seed * 257 + 11)
+    for _ in range(n_random):
+        yield (_rdef(gen.choice(r, G_TYPES), gen.choice(r, G_IDS), gen.choice(r, G_ATTRS), gen.choice(r, ["attrs", "attributes"])),
+               _res(gen.choice(r, G_RES_TYPES), gen.choice(r, G_RES_IDS), gen.choice(r, G_RES_ATTRS), gen.choice(r, G_LEGACY),
+                    gen.choice(r, ["attrs", "attrs", "attributes"])),
+               gen.choice(r, G_STRICT))
+
+
+def translated_vs_python(run: lib.Run, n_random: int) -> tuple[bool, str]:
+    """the translated matcher (Generated.Src.match_resource / is_strict, evaluated by `lake env lean --run Rbacx/Run/SrcEvalTarget.lean`)
+    against the real `match_resource` / `_is_strict` on the same arguments; CPython's `str()` of floats and containers goes to the
+    evaluator as the oracle table, computed without calling rbacx (proto.build_oracle).  Validates the translator and Model/PyLib.lean,
+    the two things the obligation C05_translated trusts."""
+    import copy
+    import json
+    import subprocess
+    calls = []
+    for rdef, res, strict in target_grid(run, n_random):
+        try:
+            want = ("ok", rpolicy.match_resource(copy.deepcopy(rdef), copy.deepcopy(res), strict=strict))
+        except Exception as e:  # noqa: BLE001
+            want = ("raised", type(e).__name__)
+        calls.append(("match_resource", [rdef, res, strict], want))
+    for env in ({}, {"__strict_types__": True}, {"__strict_types__": False}, {"__strict_types__": 1}, {"__strict_types__": 0},
+                {"__strict_types__": "no"}, {"__strict_types__": ""}, {"__strict_types__": []}, {"__strict_types__": [0]},
+                {"__strict_types__": None}, {"__strict_types__": 0.0}, {"other": True}, None, "x", [], 5):
+        try:
+            want = ("ok", rpolicy._is_strict(copy.deepcopy(env)))
+        except Exception as e:  # noqa: BLE001
+            want = ("raised", type(e).__name__)
+        calls.append(("_is_strict", [env], want))
+    lines = [json.dumps({"fn": fn, "args": [proto.enc(a) for a in args], "oracle": proto.build_oracle(*args)}) for fn, args, _ in calls]
+    p = subprocess.run(["lake", "env", "lean", "--run", "Rbacx/Run/SrcEvalTarget.lean"], cwd=lib.LEAN, input="\n".join(lines) + "\n",
+                       capture_output=True, text=True, timeout=900)
+    outs = [ln for ln in p.stdout.split("\n") if ln]
+    if p.returncode != 0 or len(outs) != len(lines):
+        return False, "SrcEvalTarget: " + (p.stderr or p.stdout)[-800:]
+    bad = 0
+    for (fn, args, want), ln in zip(calls, outs):
+        got = json.loads(ln)
+        run.count("translated-target")
+        if want[0] != "ok":
+            run.count("translated-target: python raised (not judged)")
+            continue          # CPython raised (an argument outside the function's domain): not judged
+        run.count(f"translated-target: {fn} -> {want[1]}")
+        if "value" not in got or got["value"] != proto.enc(want[1]):
+            bad += 1
+            if bad == 1:
+                run.disagreements.append({"part": "translated source vs python", "function": fn, "args": args,
+                                          "impl": {"python": repr(want[1])}, "model": got,
+                                          "what": f"the translated {fn} (Generated.Src) and the real function differ"})
+    run.evaluations += len(calls)
+    return bad == 0, f"{bad} of {len(calls)} evaluations differ" if bad else f"agree on {len(calls)} evaluations"
+
+
 def nested_modes(run: lib.Run) -> None:
     """the type mode belongs to the engine, not to whatever is running around it: a lax engine asked for a decision from inside a
     strict engine's evaluation (through a collaborator) still matches on string forms, and the other way round"""
@@ -182,28 +292,67 @@ def check(run: lib.Run, audit: dict) -> int:
                 "request attribute values (near-duplicates '1'/1/1.0/True/'True'/None/'None', missing key, no attrs); each × lax/strict × 6 paths "
                 "(match_resource with strict kw, legacy in-resource flag, Guard single policy = compiled path, the same rule as a deny next to a "
                 "catch-all permit, Guard policy set, compile()); "
-                "random targets/resources from the shared grammar. non-trivial = the documented table says 'match'")
+                "random targets/resources from the shared grammar; the translated source of match_resource / _is_strict vs the real "
+                "functions: 9 target types × 6 request types, 6 target ids × 5 request ids, 8 attribute specs × 7 request attribute values × "
+                "attrs/attributes key on either side, each × strict ∈ {None, False, True} × legacy flag ∈ {absent, True, False}, plus a seeded "
+                "sample of the full product. non-trivial = the documented table says 'match'")
     run.exhaustive = True
     run.assumptions = ["strict equality is Python == (True/1/1.0 identified) — DESIGN §6 F16", "str() of floats/containers is an oracle"]
     if not audit["ok"]:
         raise lib.CheckError(f"Lean build/audit failed at {audit['stage']}: {audit.get('log') or audit.get('forbidden') or audit.get('bad_axioms')}")
-    run_cases(run, audit, scale=run.boost)
+    # the matcher as it is written NOW, translated into Lean, is proved equal to the model's (per-run obligation)
+    tr = audit["facts"].get("translated_target")
+    untranslatable = isinstance(tr, dict) and "extraction_failed" in tr
+    ok_tr, detail_tr = lib.run_obligation("C05_translated")
+    run.obligation("C05_translated: Generated.Src.match_resource / Src.is_strict (the current source text of the target matcher) = "
+                   "the model's matchResource / isStrict, for every input and every str() oracle", ok_tr,
+                   "discharged" if ok_tr else (str(tr["extraction_failed"]) if untranslatable else detail_tr))
+    if untranslatable or not isinstance(tr, dict):
+        ok_py, detail_py = True, "skipped: the matcher is not in the translatable subset (see C05_translated)"
+    else:
+        ok_py, detail_py = translated_vs_python(run, (3000 if run.tier == "quick" else 40000) * run.boost)
+    run.obligation("translated matcher evaluates like the real match_resource / _is_strict (translator + Model/PyLib.lean vs CPython)", ok_py, detail_py)
+    run_cases(run, audit, scale=run.boost * (1 if ok_tr else 2))
     # "whichever evaluation path is taken": the compiled path must also match the same way while another decision is in progress on the
     # same compiled function (shared with C03)
     from props import c03 as _c03
     _c03.overlap_check(run, (60 if run.tier == "quick" else 600) * run.boost)
     nested_modes(run)
     violations = []
+    if not ok_tr and not run.spec_failures:
+        run_cases(run, audit, scale=4)        # the translation tie broke: widen the search for a failing input
     if run.spec_failures:
         path = run.write_replay("spec", {"what": "a path matches differently from the documented target table (Rbacx.matchResource; theorems Rbacx.C05.*)",
                                          "case": run.spec_failures[0], "count": len(run.spec_failures)})
         violations.append((path, True))
+    elif not ok_tr:
+        path = run.write_replay("obligation", {"what": "per-run obligation Rbacx/Run/C05_translated.lean no longer checks: the translated source of "
+                                               "match_resource / _is_strict is not proved equal to the model's matchResource / isStrict, the "
+                                               "functions theorems Rbacx.C05.* are about; the widened search found no target and resource on which "
+                                               "a path matches differently from the documented table",
+                                               "translation": tr, "lean": detail_tr[-1500:], "first_disagreement": run.disagreements[:1]})
+        violations.append((path, False))
+    elif run.disagreements or not ok_py:
+        first = run.disagreements[0] if run.disagreements else {"part": "translated source vs python", "what": detail_py}
+        path = run.write_replay("correspondence", {"what": "translated source vs python: " + str(first.get("what")) + "; the obligation "
+                                                   "C05_translated rests on a translation that CPython contradicts (or that could not be evaluated)",
+                                                   "first": first, "count": len(run.disagreements)})
+        violations.append((path, False))
     return run.finish(audit, violations)
 
 
 def replay(run: lib.Run, audit: dict, path: str) -> int:
     import json
-    c = json.load(open(path))["case"]
+    rp = json.load(open(path))
+    c = rp.get("case")
+    if c is None:
+        f = rp.get("first") or (rp.get("first_disagreement") or [None])[0]
+        if f and f.get("function") == "match_resource":
+            rdef, res, strict = f["args"]
+            print("match_resource now:", rpolicy.match_resource(rdef, res, strict=strict), "recorded:", f.get("impl"), "translated:", f.get("model"))
+        else:
+            print("nothing to re-run on the implementation:", rp.get("what"))
+        return 0
     if "target" in c:
         print("paths now:", paths(c["target"], c["resource"], c["strict"]), "documented:", c["documented"])
     return 0
